@@ -270,8 +270,11 @@ type zStep struct {
 }
 
 // variables that C06 / C17 templates can use as keys of the interface-keyed map
-var zIfaceKeys = map[string]interface{}{"keyNamed": ZKey("ik"), "keyPlain": "ik", "keyInt": 7, "keyAbsent": ZKey("nope"), "keySlice": []int{1},
+var zIfaceKeys = map[string]interface{}{"keyNamed": ZKey("ik"), "keyPlain": "ik", "keyInt": 7, "keyAbsent": ZKey("nope"), "keySlice": []int{1}, "keyDeepUnhashable": zDeepKey{V: []int{1}},
 	"keyOnlyNamed": ZKey("only-named"), "keyPlainOfNamed": "only-named", "keyNamedOfPlain": ZKey("only-plain")}
+
+// zDeepKey is comparable as a type; with a slice in V a value of it cannot be hashed all the same
+type zDeepKey struct{ V interface{} }
 
 type zStatus int
 
@@ -390,7 +393,7 @@ func zResolve(root interface{}, steps []zStep) (val reflect.Value, st zStatus, w
 			if d.Kind() != reflect.Map || (isNil && d.Kind() != reflect.Map) {
 				return v, zErr, "key on non-map"
 			}
-			if !reflect.TypeOf(zIfaceKeys[s.Var]).Comparable() {
+			if _, deep := zIfaceKeys[s.Var].(zDeepKey); deep || !reflect.TypeOf(zIfaceKeys[s.Var]).Comparable() {
 				return v, zErr, "key that cannot be hashed"
 			}
 			e := d.MapIndex(reflect.ValueOf(zIfaceKeys[s.Var]))
@@ -541,7 +544,7 @@ func zOptions(v reflect.Value) (valid, invalid []zStep) {
 			for _, name := range []string{"keyNamed", "keyPlain", "keyInt", "keyAbsent", "keyOnlyNamed", "keyPlainOfNamed", "keyNamedOfPlain"} {
 				valid = append(valid, zStep{Kind: "ikey", Var: name})
 			}
-			invalid = append(invalid, zStep{Kind: "ikey", Var: "keySlice"}) // a key that cannot be hashed
+			invalid = append(invalid, zStep{Kind: "ikey", Var: "keySlice"}, zStep{Kind: "ikey", Var: "keyDeepUnhashable"}) // keys that cannot be hashed
 		} else {
 			for _, k := range keys {
 				valid = append(valid, zStep{Kind: "key", I: int(k.Convert(reflect.TypeOf(0)).Int())})
